@@ -71,7 +71,15 @@ pub fn program(c: usize, prog: &str) -> Script {
 }
 
 pub fn scenario(mode: &str, pool_size: u32, progs: &[&str], with_cancel: bool) -> Scenario {
-    let cfg = Cfg::one(PoolCfg::simple("db", mode, pool_size, 1, 1));
+    scenario_cached(mode, pool_size, progs, with_cancel, 0)
+}
+
+pub fn scenario_cached(mode: &str, pool_size: u32, progs: &[&str], with_cancel: bool, cache: usize) -> Scenario {
+    let mut pool = PoolCfg::simple("db", mode, pool_size, 1, 1);
+    if cache > 0 {
+        pool.extra = format!("prepared_statements_cache_size = {}\n", cache);
+    }
+    let cfg = Cfg::one(pool);
     let servers = cfg.servers();
     let mut actors: Vec<_> = progs.iter().enumerate().map(|(i, p)| program(i, p).actor()).collect();
     let n = actors.len();
@@ -92,7 +100,7 @@ pub fn scenario(mode: &str, pool_size: u32, progs: &[&str], with_cancel: bool) -
     fin.push(Step::Probe);
     actors.push(env("final", fin));
     Scenario {
-        name: format!("C18 mode={} pool_size={} progs={} cancel={}", mode, pool_size, progs.join("+"), with_cancel),
+        name: format!("C18 mode={} pool_size={} progs={} cancel={}{}", mode, pool_size, progs.join("+"), with_cancel, if cache > 0 { " cache=on" } else { "" }),
         toml: cfg.toml(),
         alt_tomls: vec![],
         servers,
@@ -337,6 +345,10 @@ pub fn build(tier: &str) -> SimCheck {
                     scenarios.push(scenario(mode, pool_size, &[p, "drop-in-txn", "txn"], false));
                 }
             }
+            // extended protocol with the statement cache on (renamed statements, batches partly answered by the pooler)
+            scenarios.push(scenario_cached(mode, pool_size, &["ext"], false, 8));
+            scenarios.push(scenario_cached(mode, pool_size, &["ext", "ext"], false, 8));
+            scenarios.push(scenario_cached(mode, pool_size, &["ext", "txn"], false, 8));
             scenarios.push(scenario(mode, pool_size, &["txn", "drop-in-txn", "autos"], true));
             scenarios.push(scenario(mode, pool_size, &["stay", "txn", "stay"], false));
         }
